@@ -188,3 +188,30 @@ pub fn run(out: &mut dyn Write, seed: u64, thorough: bool) {
         from_str(out, &s);
     }
 }
+
+fn unhex(h: &str) -> String {
+    if h == "-" { return String::new(); }
+    let b: Vec<u8> = (0..h.len() / 2).map(|i| u8::from_str_radix(&h[2 * i..2 * i + 2], 16).unwrap()).collect();
+    String::from_utf8_lossy(&b).to_string()
+}
+
+/// re-executes recorded `I <op> <args> => ...` lines
+pub fn replay(out: &mut dyn Write, lines: &[String]) {
+    for l in lines {
+        let t: Vec<&str> = l.split_whitespace().collect();
+        if t.len() < 3 { continue; }
+        let k = t.iter().position(|x| *x == "=>").unwrap_or(t.len());
+        let a = &t[2..k];
+        let sint = |i: usize| mk(a[i].parse().unwrap(), a[i + 1] == "1");
+        match t[1] {
+            "fromstr" => from_str(out, &unhex(a[0])),
+            "newpos" | "newneg" | "fromi128" => constructors(out, a[0].parse().unwrap()),
+            op if a.len() == 4 => {
+                let _ = op;
+                binary(out, sint(0), sint(2));
+            }
+            _ if a.len() == 2 => unary(out, sint(0)),
+            _ => {}
+        }
+    }
+}
